@@ -7,7 +7,7 @@ from hypothesis import strategies as st
 
 from vf import ir
 from vf.common import Mismatch, Recorder, drive, fmt_exc, reset_mygrad
-from vf.gen import (history_program, step_aug, step_out, step_read, step_setitem, step_view)
+from vf.gen import (history_program, step_aug, step_fail, step_out, step_read, step_setitem, step_view)
 from vf.checks.c04 import skeleton
 
 PROPERTY = "C09"
@@ -75,7 +75,7 @@ def cases(draw):
     nB = draw(st.integers(1, 8))
     cleared = False
     for i in range(nB):
-        kind = draw(st.sampled_from(["backward", "clear", "inplace", "inplace", "reuse", "reuse", "view"]))
+        kind = draw(st.sampled_from(["backward", "clear", "inplace", "inplace", "reuse", "reuse", "view", "fail"]))
         if (i == nB - 1 and not cleared) or kind == "backward":
             if others and draw(st.integers(0, 3)) > 0:
                 t = others[draw(st.integers(0, len(others) - 1))]
@@ -89,12 +89,24 @@ def cases(draw):
         elif kind == "clear":
             cands = [h for h in b.ref.env if b.ref.is_tensor[h] and h != Lf]
             t = b.pick(cands)
+            if t is None:
+                continue
             b.stmts.append({"k": "clear", "h": t})
             cleared = True
         elif kind == "inplace":
             draw(st.sampled_from([step_setitem, step_setitem, step_aug, step_out]))(b)
         elif kind == "reuse":
             step_read(b)
+        elif kind == "fail":
+            # a statement NumPy rejects: must not change what the final backward does (C13); half of them are ops on a
+            # tensor the graphs share
+            if draw(st.booleans()):
+                step_fail(b, kind=draw(st.sampled_from(["bad_constant_flag", "op_shape", "matmul_shape", "bad_axis", "bad_dtype",
+                                                        "out_readonly_array"])), a=shared[0])
+            else:
+                step_fail(b)
+            if b.stmts[-1]["k"] == "fail" and b.stmts[-1]["stmt"].get("target") == Lf:
+                b.stmts.pop()  # (L_final is read-only only in the model, see above)
         else:
             step_view(b)
     return {"prog": b.prog, "L": Lf, "endA": endA, "shared": shared}
@@ -145,6 +157,14 @@ def check_case(case, rec=None):
     for idx, s in enumerate(stmts):
         if idx == endA:
             dataA = {h: (t.data, t.data.tobytes()) for h, t in run.env.items() if isinstance(t, mg.Tensor)}
+        if s["k"] == "fail":
+            try:
+                run.exec(idx, s["stmt"])
+            except Exception:  # noqa: BLE001 - expected; (a statement that does not fail is C13's subject)
+                pass
+            run.env.pop(s["stmt"].get("h"), None)
+            outcome_labels.append("phaseB_failing_stmt")
+            continue
         try:
             run.exec(idx, s)
         except mg.errors.InvalidBackprop:
